@@ -485,7 +485,7 @@ func huntScenarios(r *lib.Run, rng *lib.Rand) {
 		t0 := time.Now()
 		label := class
 		toks, obs := runScript(r, ops, class)
-		if class == "immediate" && time.Since(t0) > 1700*time.Millisecond {
+		if class != "timed" && time.Since(t0) > 1700*time.Millisecond {
 			r.Stat("hunt.immediate.too-slow-dropped", 1) // a loop timer may have fired: not an immediate scenario any more
 			return
 		}
@@ -536,7 +536,11 @@ func huntScenarios(r *lib.Run, rng *lib.Rand) {
 			{kind: 'S', mac: hMACs[3], delay: 30},
 		},
 	}
-	sem := make(chan bool, 8)
+	par := 8
+	if r.Thorough() {
+		par = 16
+	}
+	sem := make(chan bool, par)
 	for _, ops := range directed {
 		wg.Add(1)
 		sem <- true
@@ -548,6 +552,31 @@ func huntScenarios(r *lib.Run, rng *lib.Rand) {
 		wg.Add(1)
 		sem <- true
 		go func(ops []hop) { defer func() { <-sem }(); run("immediate", ops) }(ops)
+	}
+	if r.Thorough() {
+		// bounded-exhaustive: every script of depth 3 over a small alphabet (validates the model on all
+		// short interleavings; the theorems cover every depth)
+		g := netip.MustParseAddr("2001:db8::5")
+		alpha := []hop{
+			{kind: 'S', mac: hMACs[0]}, {kind: 'S', mac: hMACs[0], ip: lla1}, {kind: 'S', mac: hMACs[0], ip: g},
+			{kind: 'P', mac: hMACs[0]}, {kind: 'P', mac: hMACs[0], ip: g}, {kind: 'C'},
+			{kind: 'R', counter: 3, hk: true, src: rSrcs[0], eth: rEths[0], msg: ras[1]},
+			{kind: 'R', counter: 3, hk: true, src: rSrcs[1], eth: rEths[1], msg: ras[3]},
+			{kind: 'R', counter: 1, hk: true, src: rSrcs[1], eth: rEths[1], msg: ras[3]},
+		}
+		for a := range alpha {
+			for b := range alpha {
+				for c := range alpha {
+					ops := []hop{alpha[a], alpha[b], alpha[c], {kind: 'R', counter: 0, hk: true, src: rSrcs[0], eth: rEths[0], msg: ras[1]}}
+					for i := range ops {
+						ops[i].delay = 30
+					}
+					wg.Add(1)
+					sem <- true
+					go func(ops []hop) { defer func() { <-sem }(); run("exhaustive3", ops) }(ops)
+				}
+			}
+		}
 	}
 	wg.Wait()
 }
